@@ -12,20 +12,20 @@ package xmssjs
 //@ pred hb(v, k) := 16*spec.hexval(v[2*k]) + spec.hexval(v[2*k+1])
 
 //@ func clearPrefix0x
-//@   names data:string |  | 
+//@   names data:string |  |  | 
 //@   props C16
 //@   ensures has0x(data) ==> len(result) == len(data) - 2 && result[0:len(result)] == data[2:len(data)]
 //@   ensures !has0x(data) ==> len(result) == len(data) && result[0:len(result)] == data[0:len(data)]
 
 //@ func IsValidXMSSAddress
-//@   names address:string |  | binAddr:[]byte err:error sizedBinAddr:[20]uint8
+//@   names address:string |  | binAddr:[]byte err:error sizedBinAddr:[20]uint8 | 
 //@   props C16
 //@   ensures[C16] !has0x(address) && hexOK(address, 40) ==> (result <==> (hb(address, 0) / 16 == 0 && hb(address, 1) / 16 == 0))
 //@   ensures[C16] has0x(address) && hexOK(address[2:], 40) ==> (result <==> (hb(address[2:], 0) / 16 == 0 && hb(address[2:], 1) / 16 == 0))
 //@   ensures[C16] (!has0x(address) && notHex(address)) || (has0x(address) && notHex(address[2:])) ==> !result
 
 //@ func GetXMSSAddressFromPK
-//@   names pk:string |  | binPK:[]byte err:error sizedBinPK:[67]uint8 binAddress:[20]uint8
+//@   names pk:string |  | binPK:[]byte err:error sizedBinPK:[67]uint8 binAddress:[20]uint8 | 
 //@   props C16
 //@   panics "Address format type not supported"
 //@   ensures[C16] !has0x(pk) && hexOK(pk, 134) ==> len(result) == 40 && result[0] == spec.hexchar(hb(pk, 0) / 16) && result[1] == spec.hexchar(hb(pk, 0) % 16) && result[2] == spec.hexchar(hb(pk, 1) / 16) && result[3] == spec.hexchar(hb(pk, 1) % 16) && result[4] == 48 && result[5] == 48 && forall q :: 0 <= q && q < 17 ==> result[6+2*q] == spec.hexchar(spec.shake(256, spec.unhex(pk, 134), 67, 15+q) / 16) && result[7+2*q] == spec.hexchar(spec.shake(256, spec.unhex(pk, 134), 67, 15+q) % 16)
@@ -33,7 +33,7 @@ package xmssjs
 //@   ensures[C16] (!has0x(pk) && notHex(pk)) || (has0x(pk) && notHex(pk[2:])) ==> len(result) == 0
 
 //@ func XMSSVerify
-//@   names message:string signature:string pk:string |  | binMessage:[]uint8 binSignature:[]byte err:error binPK:[]byte sizedBinPK:[67]uint8
+//@   names message:string signature:string pk:string |  | binMessage:[]uint8 binSignature:[]byte err:error binPK:[]byte sizedBinPK:[67]uint8 | 
 //@   props C16
 //@   panics "invalid signature size. Height<=254"
 //@   panics "invalid signature type"
